@@ -7,8 +7,9 @@ Import-free executable model of the *wiring* of the simulator (C03, C08, C11):
 
 with an *abstract gate set*: a gate-set call is recorded with its arguments and returns the opaque
 token `tok k` (k = index of the call).  Device parameters are symbolic tokens (`Par.T1 q` = `T1[q]`,
-`Par.tint c t` = `t_int[c][t]`, ...), phases are exact integers in units of π/128 (the harness uses rz
-angles k·π/128), so the model is exact and computable.
+`Par.tint c t` = `t_int[c][t]`, ...).  Phases are elements of an arbitrary type `Φ` with an explicit dictionary
+`PhaseOps Φ` (zero, add, neg, π/2): the driver runs the model at `Φ = Int` (units of π/128; the harness uses rz
+angles k·π/128, so the comparison is exact), the theorems instantiate it at `Φ = ℝ`.
 
 What the Python would raise is an `Except` value (`IndexError`, `ValueError` of `list.index`,
 `AssertionError` of the neighbour check).
@@ -18,9 +19,19 @@ namespace QG.Model.Wiring
 inductive Err | index | value | assertion
   deriving Repr, DecidableEq
 
-/-- one instruction of `QuantumCircuit.data`; qubits are physical labels, `theta` in units of π/128 -/
-inductive Op
-  | rz (q : Nat) (theta : Int)
+/-- phase arithmetic: `np.pi/2` and float addition / negation, as an explicit dictionary -/
+structure PhaseOps (Φ : Type) where
+  zero : Φ
+  add : Φ → Φ → Φ
+  neg : Φ → Φ
+  halfPi : Φ
+
+/-- the driver's instance: integers in units of π/128 -/
+def intPhase : PhaseOps Int := ⟨0, (· + ·), (- ·), 64⟩
+
+/-- one instruction of `QuantumCircuit.data`; qubits are physical labels -/
+inductive Op (Φ : Type)
+  | rz (q : Nat) (theta : Φ)
   | sx (q : Nat)
   | x (q : Nat)
   | cx (c t : Nat)
@@ -37,16 +48,16 @@ inductive Par
   | durDt (dur : Nat)          -- `operation.duration * dt`
   deriving Repr, DecidableEq
 
-/-- a call into the gate set: method, phase arguments (units of π/128), noise / duration arguments -/
-structure GateCall where
+/-- a call into the gate set: method, phase arguments, noise / duration arguments -/
+structure GateCall (Φ : Type) where
   method : String
-  phases : List Int
+  phases : List Φ
   pars : List Par
   deriving Repr, DecidableEq
 
 /-- a method call on a circuit object, as issued by `_apply_gates_on_circuit` -/
-inductive CircCall
-  | Rz (i : Nat) (theta : Int)
+inductive CircCall (Φ : Type)
+  | Rz (i : Nat) (theta : Φ)
   | I (i : Nat)
   | X (i : Nat) (pars : List Par)
   | SX (i : Nat) (pars : List Par)
@@ -63,7 +74,7 @@ def addNew (l : List Nat) (q : Nat) : List Nat := if l.contains q then l else l 
 /-- `_process_layout`: used qubits (first touch; `delay` does not count; a barrier counts only with one or
 two qubits, exactly like the `len(x.qubits)` tests), measured (qubit, clbit) pairs, number of used qubits.
 The used qubits are sorted ascending (the repaired code, D6). -/
-def usedFirstTouch : List Op → List Nat → List Nat
+def usedFirstTouch {Φ : Type} : List (Op Φ) → List Nat → List Nat
   | [], acc => acc
   | op :: rest, acc =>
     let acc' := match op with
@@ -79,7 +90,7 @@ def usedFirstTouch : List Op → List Nat → List Nat
       | .measure q _ => addNew acc q
     usedFirstTouch rest acc'
 
-def measuredPairs : List Op → List (Nat × Nat)
+def measuredPairs {Φ : Type} : List (Op Φ) → List (Nat × Nat)
   | [] => []
   | .measure q c :: rest => (q, c) :: measuredPairs rest
   | _ :: rest => measuredPairs rest
@@ -95,12 +106,12 @@ structure Layout where
   measured : List (Nat × Nat)
   deriving Repr, DecidableEq
 
-def processLayout (sorted : Bool) (ops : List Op) : Layout :=
+def processLayout {Φ : Type} (sorted : Bool) (ops : List (Op Φ)) : Layout :=
   let u := usedFirstTouch ops []
   { used := if sorted then sortNat u else u, measured := measuredPairs ops }
 
 /-- `_preprocess_circuit`: the instructions kept in `data` and the number of rz among them -/
-def keep (layout : List Nat) : Op → Bool
+def keep {Φ : Type} (layout : List Nat) : Op Φ → Bool
   | .ecr c t => layout.contains c && layout.contains t
   | .cx c t => layout.contains c && layout.contains t
   | .measure _ _ => false
@@ -110,15 +121,15 @@ def keep (layout : List Nat) : Op → Bool
   | .x q => layout.contains q
   | .delay q _ => layout.contains q
 
-def preprocess (layout : List Nat) (ops : List Op) : List Op := ops.filter (keep layout)
+def preprocess {Φ : Type} (layout : List Nat) (ops : List (Op Φ)) : List (Op Φ) := ops.filter (keep layout)
 
-def countRz : List Op → Nat
+def countRz {Φ : Type} : List (Op Φ) → Nat
   | [] => 0
   | .rz _ _ :: r => countRz r + 1
   | _ :: r => countRz r
 
 /-- `depth = len(data) - n_rz + 1` -/
-def depthOf (data : List Op) : Nat := data.length - countRz data + 1
+def depthOf {Φ : Type} (data : List (Op Φ)) : Nat := data.length - countRz data + 1
 
 def indexOf? (l : List Nat) (q : Nat) : Option Nat :=
   let rec go : List Nat → Nat → Option Nat
@@ -136,7 +147,7 @@ def twoQubitPars (c t : Nat) : List Par :=
 
 /-- `_apply_gates_on_circuit`, `BinaryCircuit` branch: physical labels index the device tables, positions in
 the layout index the circuit object -/
-def callsBinaryOp (layout : List Nat) : Op → Except Err (List CircCall)
+def callsBinaryOp {Φ : Type} (layout : List Nat) : Op Φ → Except Err (List (CircCall Φ))
   | .rz q th => do let v ← indexE layout q; pure [.Rz v th]
   | .sx q => do let v ← indexE layout q; pure [.SX v [.p q, .T1 q, .T2 q]]
   | .x q => do let v ← indexE layout q; pure [.X v [.p q, .T1 q, .T2 q]]
@@ -156,27 +167,27 @@ def concatE {α : Type} : List (Except Err (List α)) → Except Err (List α)
   | x :: xs => do let a ← x; let b ← concatE xs; pure (a ++ b)
 
 /-- `for k in range(nqubit): q_r = qubit_layout[k]; circ.bitflip(k, tm[q_r], rout[q_r])` -/
-def flipCall (layout : List Nat) (k : Nat) : Except Err (List CircCall) :=
+def flipCall {Φ : Type} (layout : List Nat) (k : Nat) : Except Err (List (CircCall Φ)) :=
   match layout[k]? with
   | some q => .ok [CircCall.bitflip k [.tm q, .rout q]]
   | none => .error .index
 
-def flipCalls (nqubit : Nat) (layout : List Nat) : Except Err (List CircCall) :=
+def flipCalls {Φ : Type} (nqubit : Nat) (layout : List Nat) : Except Err (List (CircCall Φ)) :=
   concatE ((List.range nqubit).map (flipCall layout))
 
-def callsBinary (nqubit : Nat) (layout : List Nat) (data : List Op) : Except Err (List CircCall) := do
+def callsBinary {Φ : Type} (nqubit : Nat) (layout : List Nat) (data : List (Op Φ)) : Except Err (List (CircCall Φ)) := do
   let body ← concatE (data.map (callsBinaryOp layout))
   let flips ← flipCalls nqubit layout
   pure (body ++ flips)
 
 /-- the per-qubit loop `for k in range(nqubit): if k == q: ... else: circ.I(k)` of the layered branch -/
-def layerLoop (nqubit : Nat) (hit : Nat → Option (List CircCall)) : List CircCall :=
+def layerLoop {Φ : Type} (nqubit : Nat) (hit : Nat → Option (List (CircCall Φ))) : List (CircCall Φ) :=
   (List.range nqubit).flatMap fun k => match hit k with
     | some cs => cs
     | none => [.I k]
 
 /-- `_apply_gates_on_circuit`, layered branch: the physical label **is** the row index -/
-def callsLayeredOp (nqubit : Nat) : Op → List CircCall
+def callsLayeredOp {Φ : Type} (nqubit : Nat) : Op Φ → List (CircCall Φ)
   | .rz q th => [.Rz q th]
   | .sx q => layerLoop nqubit fun k => if k = q then some [.SX k [.p k, .T1 k, .T2 q]] else none
   | .x q => layerLoop nqubit fun k => if k = q then some [.X k [.p k, .T1 k, .T2 q]] else none
@@ -187,7 +198,7 @@ def callsLayeredOp (nqubit : Nat) : Op → List CircCall
   | .delay q d => layerLoop nqubit fun k => if k = q then some [.relaxation k [.durDt d, .T1 k, .T2 k]] else none
   | _ => []
 
-def callsLayered (nqubit : Nat) (data : List Op) : List CircCall :=
+def callsLayered {Φ : Type} (nqubit : Nat) (data : List (Op Φ)) : List (CircCall Φ) :=
   data.flatMap (callsLayeredOp nqubit) ++ (List.range nqubit).map fun k => .bitflip k [.tm k, .rout k]
 
 /-! ## circuit classes as state machines -/
@@ -195,9 +206,6 @@ def callsLayered (nqubit : Nat) (data : List Op) : List CircCall :=
 /-- an entry of a layer: the initial scalar `1`, the literal identity matrix of `I()`, or a sampled gate -/
 inductive Entry | one | ident | tok (k : Nat)
   deriving Repr, DecidableEq
-
-/-- `np.pi/2` in phase units -/
-def halfPi : Int := 64
 
 def setAt {α : Type} (l : List α) (i : Nat) (v : α) : Except Err (List α) :=
   if i < l.length then .ok (l.set i v) else .error .index
@@ -210,22 +218,22 @@ def getAt {α : Type} (l : List α) (i : Nat) : Except Err α :=
 /-- what a two-qubit method does with the gate set and the phases, common to all classes:
 returns the call, the updated phases, and the pair (row that stores the matrix, order of the item for the
 index-based class) -/
-structure TwoQ where
-  call : GateCall
-  phi : List Int
+structure TwoQ (Φ : Type) where
+  call : GateCall Φ
+  phi : List Φ
 
 /-- `CNOT(i, k, ...)`: forward if `i < k`; the reversed gate is sampled with the *same* argument order
 (control first) and updates both phases -/
-def twoQCNOT (phi : List Int) (i k : Nat) (pars : List Par) : Except Err TwoQ := do
+def twoQCNOT {Φ : Type} (P : PhaseOps Φ) (phi : List Φ) (i k : Nat) (pars : List Par) : Except Err (TwoQ Φ) := do
   let pi_ ← getAt phi i
   let pk ← getAt phi k
   if i < k then
-    let phi' ← setAt phi i (pi_ - halfPi)
+    let phi' ← setAt phi i (P.add pi_ (P.neg P.halfPi))
     pure { call := ⟨"CNOT", [pi_, pk], pars⟩, phi := phi' }
   else
-    let phi1 ← setAt phi i (pi_ + halfPi + 2 * halfPi)
+    let phi1 ← setAt phi i (P.add (P.add pi_ P.halfPi) (P.add P.halfPi P.halfPi))
     let pk' ← getAt phi1 k
-    let phi2 ← setAt phi1 k (pk' + halfPi)
+    let phi2 ← setAt phi1 k (P.add pk' P.halfPi)
     pure { call := ⟨"CNOT_inv", [pi_, pk], pars⟩, phi := phi2 }
 
 /-- `[t, p2, p_i, p_k, T1i, T2i, T1k, T2k]` with the two qubits' entries exchanged (slot order of the reversed ECR) -/
@@ -235,32 +243,34 @@ def swapRoles : List Par → List Par
 
 /-- `ECR(i, k, ...)`: forward if `i < k`; the reversed gate takes phases **and** noise arguments in slot
 order (lower index first) — the repaired code (D5) -/
-def twoQECR (phi : List Int) (i k : Nat) (pars : List Par) : Except Err TwoQ := do
+def twoQECR {Φ : Type} (phi : List Φ) (i k : Nat) (pars : List Par) : Except Err (TwoQ Φ) := do
   let pi_ ← getAt phi i
   let pk ← getAt phi k
   if i < k then pure { call := ⟨"ECR", [pi_, pk], pars⟩, phi := phi }
   else pure { call := ⟨"ECR_inv", [pk, pi_], swapRoles pars⟩, phi := phi }
 
-def oneQCall (method : String) (phi : List Int) (i : Nat) (pars : List Par) (withPhase : Bool) :
-    Except Err GateCall := do
+def oneQCall {Φ : Type} (P : PhaseOps Φ) (method : String) (phi : List Φ) (i : Nat) (pars : List Par) (withPhase : Bool) :
+    Except Err (GateCall Φ) := do
   if withPhase then
     let p ← getAt phi i
-    pure ⟨method, [-p], pars⟩
+    pure ⟨method, [P.neg p], pars⟩
   else pure ⟨method, [], pars⟩
 
 /-! ### `Circuit` (fixed depth grid) -/
-structure GridState where
+structure GridState (Φ : Type) where
   nqubit : Nat
   depth : Nat
   j : Nat
   s : Nat
-  phi : List Int
+  phi : List Φ
   grid : List (List Entry)        -- grid[row][col]
-  calls : List GateCall           -- gate-set calls so far (reversed)
+  calls : List (GateCall Φ)       -- gate-set calls so far (reversed)
   deriving Repr, DecidableEq
 
-def GridState.init (n depth : Nat) : GridState :=
-  { nqubit := n, depth := depth, j := 0, s := 0, phi := List.replicate n 0,
+variable {Φ : Type}
+
+def GridState.init (P : PhaseOps Φ) (n depth : Nat) : GridState Φ :=
+  { nqubit := n, depth := depth, j := 0, s := 0, phi := List.replicate n P.zero,
     grid := List.replicate n (List.replicate depth .one), calls := [] }
 
 def gridWrite (g : List (List Entry)) (i j : Nat) (e : Entry) : Except Err (List (List Entry)) := do
@@ -269,7 +279,7 @@ def gridWrite (g : List (List Entry)) (i j : Nat) (e : Entry) : Except Err (List
   setAt g i row'
 
 /-- `Circuit.apply` -/
-def GridState.apply1 (st : GridState) (i : Nat) (e : Entry) : Except Err GridState :=
+def GridState.apply1 (st : GridState Φ) (i : Nat) (e : Entry) : Except Err (GridState Φ) :=
   if st.s < st.nqubit then do
     let g ← gridWrite st.grid i st.j e
     pure { st with grid := g, s := st.s + 1 }
@@ -278,7 +288,7 @@ def GridState.apply1 (st : GridState) (i : Nat) (e : Entry) : Except Err GridSta
     pure { st with grid := g, s := 1, j := st.j + 1 }
   else pure st
 
-def GridState.apply2 (st : GridState) (i : Nat) (e : Entry) (phi : List Int) : Except Err GridState :=
+def GridState.apply2 (st : GridState Φ) (i : Nat) (e : Entry) (phi : List Φ) : Except Err (GridState Φ) :=
   if st.s < st.nqubit then do
     let g ← gridWrite st.grid i st.j e
     pure { st with grid := g, s := st.s + 2, phi := phi }
@@ -289,28 +299,28 @@ def GridState.apply2 (st : GridState) (i : Nat) (e : Entry) (phi : List Int) : E
 
 def absDiff (a b : Nat) : Nat := if a ≤ b then b - a else a - b
 
-def GridState.step (st : GridState) : CircCall → Except Err GridState
+def GridState.step (P : PhaseOps Φ) (st : GridState Φ) : CircCall Φ → Except Err (GridState Φ)
   | .Rz i th => do
       let p ← getAt st.phi i
-      let phi ← setAt st.phi i (p + th)
+      let phi ← setAt st.phi i (P.add p th)
       pure { st with phi := phi }
   | .I i => st.apply1 i .ident
   | .X i pars => do
-      let c ← oneQCall "X" st.phi i pars true
+      let c ← oneQCall P "X" st.phi i pars true
       ({ st with calls := c :: st.calls }).apply1 i (.tok st.calls.length)
   | .SX i pars => do
-      let c ← oneQCall "SX" st.phi i pars true
+      let c ← oneQCall P "SX" st.phi i pars true
       ({ st with calls := c :: st.calls }).apply1 i (.tok st.calls.length)
   | .relaxation i pars => do
-      let c ← oneQCall "relaxation" st.phi i pars false
+      let c ← oneQCall P "relaxation" st.phi i pars false
       ({ st with calls := c :: st.calls }).apply1 i (.tok st.calls.length)
   | .bitflip i pars => do
-      let c ← oneQCall "bitflip" st.phi i pars false
+      let c ← oneQCall P "bitflip" st.phi i pars false
       ({ st with calls := c :: st.calls }).apply1 i (.tok st.calls.length)
   | .CNOT i k pars =>
       if absDiff i k ≠ 1 then .error .assertion
       else if st.s < st.nqubit ∨ st.s = st.nqubit then do
-        let t ← twoQCNOT st.phi i k pars
+        let t ← twoQCNOT P st.phi i k pars
         ({ st with calls := t.call :: st.calls }).apply2 i (.tok st.calls.length) t.phi
       else pure st
   | .ECR i k pars =>
@@ -320,103 +330,115 @@ def GridState.step (st : GridState) : CircCall → Except Err GridState
         ({ st with calls := t.call :: st.calls }).apply2 i (.tok st.calls.length) t.phi
       else pure st
 
-def GridState.reset (st : GridState) : GridState :=
+def GridState.reset (P : PhaseOps Φ) (st : GridState Φ) : GridState Φ :=
   { st with j := 0, s := 0, grid := List.replicate st.nqubit (List.replicate st.depth .one),
-            phi := List.replicate st.nqubit 0 }
+            phi := List.replicate st.nqubit P.zero }
 
 /-! ### `AlternativeCircuit` (Standard / Efficient / One circuit): layers on demand -/
-structure LayerState where
+structure LayerState (Φ : Type) where
   nqubit : Nat
   s : Nat
-  phi : List Int
+  phi : List Φ
   mp : List Entry
   mpList : List (List Entry)      -- completed layers (reversed)
-  calls : List GateCall
+  calls : List (GateCall Φ)
   deriving Repr, DecidableEq
 
-def LayerState.init (n : Nat) : LayerState :=
-  { nqubit := n, s := 0, phi := List.replicate n 0, mp := List.replicate n .one, mpList := [], calls := [] }
+def LayerState.init (P : PhaseOps Φ) (n : Nat) : LayerState Φ :=
+  { nqubit := n, s := 0, phi := List.replicate n P.zero, mp := List.replicate n .one, mpList := [], calls := [] }
 
-def LayerState.flush (st : LayerState) : LayerState :=
+def LayerState.flush (st : LayerState Φ) : LayerState Φ :=
   if st.s = st.nqubit then
     { st with mpList := st.mp :: st.mpList, mp := List.replicate st.nqubit .one, s := 0 }
   else st
 
-def LayerState.apply1 (st : LayerState) (i : Nat) (e : Entry) : Except Err LayerState := do
+def LayerState.apply1 (st : LayerState Φ) (i : Nat) (e : Entry) : Except Err (LayerState Φ) := do
   let mp ← setAt st.mp i e
   pure ({ st with mp := mp, s := st.s + 1 }).flush
 
-def LayerState.apply2 (st : LayerState) (i : Nat) (e : Entry) (phi : List Int) : Except Err LayerState := do
+def LayerState.apply2 (st : LayerState Φ) (i : Nat) (e : Entry) (phi : List Φ) : Except Err (LayerState Φ) := do
   let mp ← setAt st.mp i e
   pure ({ st with mp := mp, s := st.s + 2, phi := phi }).flush
 
-def LayerState.step (st : LayerState) : CircCall → Except Err LayerState
+def LayerState.step (P : PhaseOps Φ) (st : LayerState Φ) : CircCall Φ → Except Err (LayerState Φ)
   | .Rz i th => do
       let p ← getAt st.phi i
-      let phi ← setAt st.phi i (p + th)
+      let phi ← setAt st.phi i (P.add p th)
       pure { st with phi := phi }
   | .I i => st.apply1 i .ident
   | .X i pars => do
-      let c ← oneQCall "X" st.phi i pars true
+      let c ← oneQCall P "X" st.phi i pars true
       ({ st with calls := c :: st.calls }).apply1 i (.tok st.calls.length)
   | .SX i pars => do
-      let c ← oneQCall "SX" st.phi i pars true
+      let c ← oneQCall P "SX" st.phi i pars true
       ({ st with calls := c :: st.calls }).apply1 i (.tok st.calls.length)
   | .relaxation i pars => do
-      let c ← oneQCall "relaxation" st.phi i pars false
+      let c ← oneQCall P "relaxation" st.phi i pars false
       ({ st with calls := c :: st.calls }).apply1 i (.tok st.calls.length)
   | .bitflip i pars => do
-      let c ← oneQCall "bitflip" st.phi i pars false
+      let c ← oneQCall P "bitflip" st.phi i pars false
       ({ st with calls := c :: st.calls }).apply1 i (.tok st.calls.length)
   | .CNOT i k pars => do
-      let t ← twoQCNOT st.phi i k pars
+      let t ← twoQCNOT P st.phi i k pars
       ({ st with calls := t.call :: st.calls }).apply2 i (.tok st.calls.length) t.phi
   | .ECR i k pars => do
       let t ← twoQECR st.phi i k pars
       ({ st with calls := t.call :: st.calls }).apply2 i (.tok st.calls.length) t.phi
 
-def LayerState.reset (st : LayerState) : LayerState :=
-  { st with s := 0, phi := List.replicate st.nqubit 0, mp := List.replicate st.nqubit .one, mpList := [] }
+def LayerState.reset (P : PhaseOps Φ) (st : LayerState Φ) : LayerState Φ :=
+  { st with s := 0, phi := List.replicate st.nqubit P.zero, mp := List.replicate st.nqubit .one, mpList := [] }
 
 /-! ### `BinaryCircuit` (index based) -/
-structure BinState where
-  nqubit : Nat
-  phi : List Int
-  items : List (Nat × Nat × Int)  -- (token, i, j) with j = -1 for one-qubit items (reversed)
-  calls : List GateCall
+
+/-- an entry of `_info_gates_list`: the matrix (the gate-set call that sampled it, `none` = the literal identity
+of `I()`), and the qubit list `[i, j]` (`j = -1` for one-qubit items) -/
+structure BinItem (Φ : Type) where
+  gate : Option (GateCall Φ)
+  i : Nat
+  j : Int
   deriving Repr, DecidableEq
 
-def BinState.init (n : Nat) : BinState := { nqubit := n, phi := List.replicate n 0, items := [], calls := [] }
+structure BinState (Φ : Type) where
+  nqubit : Nat
+  phi : List Φ
+  items : List (BinItem Φ)        -- newest first
+  deriving Repr, DecidableEq
 
-def BinState.step (st : BinState) : CircCall → Except Err BinState
+def BinState.init (P : PhaseOps Φ) (n : Nat) : BinState Φ := { nqubit := n, phi := List.replicate n P.zero, items := [] }
+
+/-- the gate-set calls so far, oldest first (every call produced exactly one item) -/
+def BinState.calls (st : BinState Φ) : List (GateCall Φ) := st.items.reverse.filterMap (·.gate)
+
+def BinState.step (P : PhaseOps Φ) (st : BinState Φ) : CircCall Φ → Except Err (BinState Φ)
   | .Rz i th => do
       let p ← getAt st.phi i
-      let phi ← setAt st.phi i (p + th)
+      let phi ← setAt st.phi i (P.add p th)
       pure { st with phi := phi }
-  | .I i => pure { st with items := (0, i, -2) :: st.items }     -- literal identity, marked by j = -2
+  | .I i => pure { st with items := ⟨none, i, -1⟩ :: st.items }
   | .X i pars => do
-      let c ← oneQCall "X" st.phi i pars true
-      pure { st with calls := c :: st.calls, items := (st.calls.length, i, -1) :: st.items }
+      let c ← oneQCall P "X" st.phi i pars true
+      pure { st with items := ⟨some c, i, -1⟩ :: st.items }
   | .SX i pars => do
-      let c ← oneQCall "SX" st.phi i pars true
-      pure { st with calls := c :: st.calls, items := (st.calls.length, i, -1) :: st.items }
+      let c ← oneQCall P "SX" st.phi i pars true
+      pure { st with items := ⟨some c, i, -1⟩ :: st.items }
   | .relaxation i pars => do
-      let c ← oneQCall "relaxation" st.phi i pars false
-      pure { st with calls := c :: st.calls, items := (st.calls.length, i, -1) :: st.items }
+      let c ← oneQCall P "relaxation" st.phi i pars false
+      pure { st with items := ⟨some c, i, -1⟩ :: st.items }
   | .bitflip i pars => do
-      let c ← oneQCall "bitflip" st.phi i pars false
-      pure { st with calls := c :: st.calls, items := (st.calls.length, i, -1) :: st.items }
+      let c ← oneQCall P "bitflip" st.phi i pars false
+      pure { st with items := ⟨some c, i, -1⟩ :: st.items }
   | .CNOT i k pars => do
-      let t ← twoQCNOT st.phi i k pars
+      let t ← twoQCNOT P st.phi i k pars
       -- the matrix is in (lower, higher) slot order: forward [i,k]; reversed [k,i] (repaired, D4)
-      let item := if i < k then (st.calls.length, i, (k : Int)) else (st.calls.length, k, (i : Int))
-      pure { st with calls := t.call :: st.calls, phi := t.phi, items := item :: st.items }
+      let item : BinItem Φ := if i < k then ⟨some t.call, i, (k : Int)⟩ else ⟨some t.call, k, (i : Int)⟩
+      pure { st with phi := t.phi, items := item :: st.items }
   | .ECR i k pars => do
       let t ← twoQECR st.phi i k pars
-      let item := if i < k then (st.calls.length, i, (k : Int)) else (st.calls.length, k, (i : Int))
-      pure { st with calls := t.call :: st.calls, phi := t.phi, items := item :: st.items }
+      let item : BinItem Φ := if i < k then ⟨some t.call, i, (k : Int)⟩ else ⟨some t.call, k, (i : Int)⟩
+      pure { st with phi := t.phi, items := item :: st.items }
 
-def BinState.reset (st : BinState) : BinState := { st with phi := List.replicate st.nqubit 0, items := [] }
+def BinState.reset (P : PhaseOps Φ) (st : BinState Φ) : BinState Φ :=
+  { st with phi := List.replicate st.nqubit P.zero, items := [] }
 
 def foldE {σ α : Type} (f : σ → α → Except Err σ) : σ → List α → Except Err σ
   | s, [] => .ok s
